@@ -262,17 +262,220 @@ def wf_packets(ctx, rng):
     return out
 
 
-def corpus_lines(kind):
-    """ops of one kind (ENC / DEC / STREAM, version 4) found in corpus/codec/*"""
+def corpus_lines(kind, ver=4):
+    """ops of one kind (ENC / DEC / STREAM) and protocol version found in corpus/codec/*"""
     cdir = os.path.join(lib.ROOT, "corpus", "codec")
     out = []
     if os.path.isdir(cdir):
         for fn in sorted(os.listdir(cdir)):
             for l in open(os.path.join(cdir, fn)).read().splitlines():
                 l = l.split(" #=")[0].strip()
-                if l.startswith(kind + " 4 "):
+                if l.startswith("%s %d " % (kind, ver)):
                     out.append(l)
     return out
+
+
+# ------------------------------------------------------------------ canonical MQTT 5 packets (text)
+
+KIND = {1: "b", 23: "b", 25: "b", 36: "b", 37: "b", 40: "b", 41: "b", 42: "b", 19: "h", 33: "h", 34: "h", 35: "h",
+        2: "w", 17: "w", 24: "w", 39: "w", 11: "v", 3: "s", 8: "s", 18: "s", 21: "s", 26: "s", 28: "s", 31: "s", 9: "d", 22: "d", 38: "p"}
+T_CONNECT = [17, 33, 39, 34, 25, 23, 38, 21, 22]
+T_WILL = [24, 1, 2, 3, 8, 9, 38]
+T_CONNACK = [17, 33, 36, 37, 39, 18, 34, 31, 38, 40, 41, 42, 19, 26, 28, 21, 22]
+T_PUBLISH = [1, 2, 35, 8, 9, 38, 11, 3]
+T_ACK = [31, 38]
+T_SUBSCRIBE = [11, 38]
+T_UNSUBSCRIBE = [38]
+T_DISCONNECT = [17, 31, 38, 28]
+PUBACK_R = [0, 16, 128, 131, 135, 144, 145, 151, 153]
+PUBREL_R = [0, 146]
+CONNACK_C = [0, 128, 129, 130, 131, 132, 133, 134, 135, 136, 137, 138, 140, 144, 149, 151, 153, 154, 155, 156, 157, 159]
+UNSUBACK_R = [0, 17, 128, 131, 135, 143, 145]
+DISC_R = [0, 4, 128, 129, 130, 131, 135, 137, 139, 141, 142, 143, 144, 147, 148, 149, 150, 151, 152, 153, 154, 155, 156, 157, 158, 159, 160, 161, 162]
+VALS = {"b": [0, 1, 255], "h": [0, 1, 65535], "w": [0, 1, 4294967295], "v": [1, 127, 128, 16383, 16384, 2097151, 2097152, 268435455, 0],
+        "s": [b"", b"a", "réason".encode(), b"x" * 200], "d": [b"", b"\x00\xff", b"data"],
+        "p": [(b"k", b"v"), (b"", b""), ("clé".encode(), b"v" * 130)]}
+
+
+def pv(id_, v):
+    k = KIND[id_]
+    if k in "bhwv":
+        return "%d=%d" % (id_, v)
+    if k in "sd":
+        return "%d=%s" % (id_, hx(v))
+    return "%d=%s~%s" % (id_, hx(v[0]), hx(v[1]))
+
+
+def props_text(items):
+    """None -> none, [] -> empty, [(id, value)] -> text"""
+    if items is None:
+        return "none"
+    return ";".join(pv(i, v) for (i, v) in items) or "empty"
+
+
+def some_value(rng, id_, i=None):
+    vs = VALS[KIND[id_]]
+    return vs[i % len(vs)] if i is not None else rng.choice(vs)
+
+
+def prop_sets(rng, tab, thorough):
+    """property sections for a packet type with table `tab`: none, empty, every property alone with every pool value,
+    all properties, every subset (<= 9 ids) or sampled subsets, repeated multi-valued ids, and (not wf) out-of-order /
+    duplicated single-valued ids"""
+    out = [(None, set()), ([], {"props"})]
+    for id_ in tab:
+        for v in VALS[KIND[id_]]:
+            out.append(([(id_, v)], {"props"}))
+    out.append(([(i, some_value(rng, i, 1)) for i in tab], {"props", "all-props"}))
+    n = len(tab)
+    if n <= 9:
+        masks = range(1, 1 << n)
+    else:
+        masks = sorted({rng.below(1 << n) | 1 << rng.below(n) for _ in range(600 if thorough else 150)})
+    for m_ in masks:
+        out.append(([(tab[i], some_value(rng, tab[i])) for i in range(n) if m_ >> i & 1], {"props", "subset"}))
+    if 38 in tab:
+        for k in (2, 3):
+            l = []
+            for i in tab:
+                if i == 38:
+                    l += [(38, some_value(rng, 38, j)) for j in range(k)]
+                elif i == 11 and tab is T_PUBLISH:
+                    l += [(11, some_value(rng, 11, j)) for j in range(k + 1)]
+                elif rng.chance(1, 2):
+                    l.append((i, some_value(rng, i)))
+            out.append((l, {"props", "multi"}))
+    if n >= 2:
+        out.append(([(tab[1], some_value(rng, tab[1])), (tab[0], some_value(rng, tab[0]))], {"props", "non-canonical"}))
+        out.append(([(tab[0], some_value(rng, tab[0], 0)), (tab[0], some_value(rng, tab[0], 1))], {"props", "non-canonical"}))
+    return out
+
+
+def q_connect5(ka=10, cid=b"c", clean=1, props=None, will=None, login=None):
+    w = "none" if will is None else "%s:%s:%d:%d:%s" % (hx(will[0]), hx(will[1]), will[2], will[3], props_text(will[4]))
+    l = "none" if login is None else "%s:%s" % (hx(login[0]), hx(login[1]))
+    return "CONNECT ka=%d id=%s clean=%d props=%s will=%s login=%s" % (ka, hx(cid), clean, props_text(props), w, l)
+
+
+def q_publish5(dup, qos, retain, topic, pkid, payload, props=None):
+    return "PUBLISH dup=%d qos=%d retain=%d topic=%s pkid=%d payload=%s props=%s" % (dup, qos, retain, hx(topic), pkid, hx(payload), props_text(props))
+
+
+def q_ack5(kind, pkid, reason=0, props=None):
+    return "%s pkid=%d reason=%d props=%s" % (kind, pkid, reason, props_text(props))
+
+
+def q_subscribe5(pkid, filters, props=None):
+    return "SUBSCRIBE pkid=%d filters=%s props=%s" % (pkid, ",".join("%s:%d:%d:%d:%d" % (hx(p_), q, nl, pr, r) for (p_, q, nl, pr, r) in filters) or "none", props_text(props))
+
+
+def wf_packets5(ctx, rng):
+    out = []
+    th = ctx.thorough()
+
+    def add(p, *tags):
+        out.append((p, set(tags)))
+    add("PINGREQ"); add("PINGRESP")
+    # ---- DISCONNECT / acks: every reason code x {none, empty, props}
+    for r in DISC_R + [1, 163]:
+        add("DISCONNECT reason=%d props=none" % r, "codes")
+    for (ps, tg) in prop_sets(rng, T_DISCONNECT, th):
+        add("DISCONNECT reason=%d props=%s" % (rng.choice([0, 0, 142, 152]), props_text(ps)), "optional", *tg)
+    for kind, rs in (("PUBACK", PUBACK_R), ("PUBREC", PUBACK_R), ("PUBREL", PUBREL_R), ("PUBCOMP", PUBREL_R)):
+        for r in rs + [1]:
+            for pkid in (1, 65535):
+                add(q_ack5(kind, pkid, r, None), "codes"); add(q_ack5(kind, pkid, r, []), "codes", "props")
+        for pkid in [0] + PKIDS:
+            add(q_ack5(kind, pkid, 0, None), "ids")
+        for (ps, tg) in prop_sets(rng, T_ACK, th):
+            add(q_ack5(kind, 7, rng.choice(rs), ps), "optional", *tg)
+    # ---- CONNACK
+    for sp in (0, 1):
+        for c in CONNACK_C + [1, 2, 3, 4, 127, 139]:
+            add("CONNACK sp=%d code=%d props=none" % (sp, c), "codes")
+    for (ps, tg) in prop_sets(rng, T_CONNACK, th):
+        add("CONNACK sp=%d code=%d props=%s" % (rng.below(2), rng.choice(CONNACK_C), props_text(ps)), "optional", *tg)
+    # ---- PUBLISH
+    for dup in (0, 1):
+        for qos in (0, 1, 2):
+            for retain in (0, 1):
+                for pkid in ([0, 1] if qos == 0 else [0] + PKIDS):
+                    add(q_publish5(dup, qos, retain, rng.choice(STRS[1:]), pkid, rng.choice([b"", b"x", b"\x00\xff", b"payload"]), None), "flags", "ids")
+    for t_ in STRS + BAD_UTF8[:3]:
+        add(q_publish5(0, 1, 0, t_, 3, b"p", [(1, 1)]), "strings")
+    for (ps, tg) in prop_sets(rng, T_PUBLISH, th):
+        q = rng.below(3)
+        add(q_publish5(rng.below(2), q, rng.below(2), b"a/b", 9 if q else 0, rng.choice([b"", b"pay"]), ps), "optional", *tg)
+    for k in (1, 2, 3, 4, 6):        # several subscription identifiers followed by a (short) content type
+        for ct in (b"", b"a", b"text/plain"):
+            add(q_publish5(0, 0, 0, b"t", 0, b"x", [(11, 1 + j) for j in range(k)] + [(3, ct)]), "optional", "props", "multi", "subids")
+            add(q_publish5(0, 1, 0, b"t", 5, b"x", [(38, (b"k", b"v"))] + [(11, 200 + j) for j in range(k)] + [(3, ct)]), "optional", "props", "multi", "subids")
+    add(q_publish5(0, 0, 0, b"t", 0, b"x", [(11, 268435456)]), "varint-too-big")
+    for rem in [126, 127, 128, 129, 16382, 16383, 16384, 16385]:
+        for ps in (None, [(1, 1), (38, (b"k", b"v"))]):
+            plen = 1 if ps is None else 1 + 2 + 7
+            pl = rem - 2 - 3 - 2 - plen
+            add(q_publish5(0, 1, 0, b"a/b", 5, bytes((i * 7 + rem) & 0xff for i in range(pl)), ps), "len-boundary")
+    for pl_ in (127 - 1, 128 - 1, 16383 - 1, 16384 - 1, 16384):     # property length across its own varint boundaries
+        add(q_publish5(0, 0, 0, b"t", 0, b"x", [(8, b"r" * (pl_ - 3))]), "len-boundary", "props")
+    for rem in ([2097151, 2097152] if not th else [2097150, 2097151, 2097152, 2097153]):
+        add(q_publish5(0, 1, 1, b"t", 65535, bytes([rem & 0xff]) * (rem - 2 - 1 - 2 - 1), None), "len-boundary", "huge")
+    for n in (65535, 65536):
+        add(q_publish5(0, 0, 0, b"a" * n, 0, b"z", None), "str-boundary")
+        add(q_publish5(0, 0, 0, b"a", 0, b"z", [(3, b"c" * n)]), "str-boundary", "props")
+    # ---- CONNECT
+    wills = [None, (b"w", b"", 0, 0, None), (b"will/t", b"bye", 1, 1, []), (b"\xff", b"\xff\x00", 2, 0, [(24, 5), (38, (b"k", b"v"))])]
+    logins = [None, (b"u", b""), (b"", b"p"), (b"user", b"pass"), (b"", b"")]
+    for clean in (0, 1):
+        for w in wills:
+            for l in logins:
+                add(q_connect5(rng.choice([0, 1, 10, 65535]), rng.choice([b"", b"c", b"client-23", "cé".encode()]), clean,
+                               rng.choice([None, [], [(17, 30)], [(33, 10), (38, (b"a", b"b"))]]), w, l), "optional")
+    for (ps, tg) in prop_sets(rng, T_CONNECT, th):
+        add(q_connect5(60, b"cid", 1, ps, None, None), "optional", *tg)
+    for (ps, tg) in prop_sets(rng, T_WILL, th):
+        add(q_connect5(60, b"cid", 0, [(17, 1)], (b"w/t", b"m", 1, 0, ps), (b"u", b"p")), "optional", *tg)
+    for bad in BAD_UTF8[:3]:
+        add(q_connect5(60, bad, 1, None, None, None), "non-utf8")
+        add(q_connect5(60, b"i", 1, [(21, bad)], None, None), "non-utf8")
+        add(q_connect5(60, b"i", 1, [(38, (b"k", bad))], None, None), "non-utf8")
+        add(q_connect5(60, b"i", 1, None, None, (bad, b"p")), "non-utf8")
+    for n in (65535, 65536):
+        add(q_connect5(60, b"i" * n, 1, None, None, None), "str-boundary")
+        add(q_connect5(60, b"i", 1, None, (b"t" * n, b"m", 1, 0, None), None), "str-boundary", "optional")
+    # ---- SUBSCRIBE / SUBACK / UNSUBSCRIBE / UNSUBACK
+    for pkid in [0] + PKIDS:
+        add(q_subscribe5(pkid, [(b"a/b", 1, 0, 0, 0)], None), "ids")
+        add("SUBACK pkid=%d codes=S1 props=none" % pkid, "ids")
+        add("UNSUBSCRIBE pkid=%d topics=612f62 props=none" % pkid, "ids")
+        add("UNSUBACK pkid=%d reasons=0 props=none" % pkid, "ids")
+    for q in (0, 1, 2):
+        for nl in (0, 1):
+            for pr in (0, 1):
+                for r in (0, 1, 2, 3):
+                    add(q_subscribe5(2, [(b"f/+", q, nl, pr, r)], None), "flags")
+    add(q_subscribe5(1, [], None), "empty-list"); add("SUBACK pkid=1 codes=none props=none", "empty-list")
+    add("UNSUBSCRIBE pkid=1 topics=none props=none", "empty-list"); add("UNSUBACK pkid=1 reasons=none props=none", "empty-list")
+    for (ps, tg) in prop_sets(rng, T_SUBSCRIBE, th):
+        add(q_subscribe5(3, [(rng.choice(STRS), rng.below(3), rng.below(2), rng.below(2), rng.below(3)) for _ in range(1 + rng.below(3))], ps), "optional", "multi", *tg)
+    for (ps, tg) in prop_sets(rng, T_UNSUBSCRIBE, th):
+        add("UNSUBSCRIBE pkid=4 topics=%s props=%s" % (",".join(hx(rng.choice(STRS)) for _ in range(1 + rng.below(3))), props_text(ps)), "optional", "multi", *tg)
+    for (ps, tg) in prop_sets(rng, T_ACK, th):
+        add("SUBACK pkid=5 codes=%s props=%s" % (",".join(rng.choice(RCS[:16]) for _ in range(1 + rng.below(3))), props_text(ps)), "optional", "multi", *tg)
+        add("UNSUBACK pkid=6 reasons=%s props=%s" % (",".join(str(rng.choice(UNSUBACK_R)) for _ in range(1 + rng.below(3))), props_text(ps)), "optional", "multi", *tg)
+    for c in RCS:
+        add("SUBACK pkid=3 codes=%s props=none" % c, "codes")
+    for r in UNSUBACK_R + [1, 16, 146]:
+        add("UNSUBACK pkid=3 reasons=%d props=none" % r, "codes")
+    for bad in BAD_UTF8[:2]:
+        add(q_subscribe5(3, [(bad, 0, 0, 0, 0)], None), "non-utf8"); add("UNSUBSCRIBE pkid=3 topics=6f6b,%s props=none" % hx(bad), "non-utf8")
+    for rem in (127, 128, 16383, 16384):
+        add("SUBACK pkid=4 codes=%s props=none" % ",".join("S%d" % (i % 3) for i in range(rem - 3)), "len-boundary")
+        add("UNSUBACK pkid=4 reasons=%s props=none" % ",".join("0" for i in range(rem - 3)), "len-boundary")
+    for l in corpus_lines("ENC", 5):
+        add(" ".join(l.split()[4:]), "corpus")
+    return out
+
 
 
 # ------------------------------------------------------------------ fixed header, independently of the model
@@ -298,44 +501,46 @@ def kind_of(pkt):
 
 # ------------------------------------------------------------------ C04
 
-def run_c04(ctx, mexe, iexe, p_ok):
-    rng = lib.Rng(ctx.seed)
-    pkts = wf_packets(ctx, rng)
-    ctx.cov["rule"] = (
-        "structured generator of canonical MQTT 3.1.1 packets: all 14 types; PUBLISH dup x qos x retain x ids {0,1,2,255,256,65535}; strings "
-        "(empty, ASCII, multi-byte, invalid UTF-8, lengths 127/128/65535/65536); remaining lengths 126..129, 16382..16385, 2097151/2097152 "
-        "(PUBLISH, CONNECT, SUBSCRIBE, SUBACK, UNSUBSCRIBE); CONNECT proto x clean x 5 wills x 6 logins; every return/reason code; "
-        "1-3 and ~3000 filters/codes; random packets; corpus/codec. Each packet is encoded by BOTH real encoders (rumqttc Packet::write/size, rumqttd "
-        "V4::write) and by the extracted Coq model (byte equality), every encoding (+ trailing bytes) is decoded by BOTH real decoders and the model. "
-        "Monitor on the real code, for packets that satisfy the Coq predicate wf_v4: encoder succeeds, ret = size() = bytes written, same-crate decode "
-        "returns norm(p) consuming exactly the frame, also with max = remaining length, and the peer crate decodes the same bytes to norm(p) when "
-        "wf_v4 peer (norm p). distinct_nontrivial = distinct wf packets (per flavour) having an optional part present, a multi-byte string, several "
-        "filters/codes, or a remaining length within 1 of a len_len boundary.")
-    # ---- pass 1: WF, NORM, ENC
+def maxtok(ver, fl, n=None):
+    """max-size token of an op: a number; MQTT 5 client: "none" = no limit (Option<u32>)"""
+    if n is not None:
+        return str(n)
+    return "none" if (ver == 5 and fl == "C") else str(BIG)
+
+
+def norm_op(ver, fl, p):
+    return "NORM 4 %s" % p if ver == 4 else "NORM 5 %s %s" % (fl, p)
+
+
+def c04_core(ctx, mexe, iexe, ver, pkts, st):
+    """encode every packet with both real encoders + model, decode every encoding with both real decoders + model,
+    evaluate the C04 monitor on the real code.  st accumulates fails / diffs / statistics."""
+    fails, diffs = st["fails"], st["diffs"]
+    # ---- pass 1: WF, NORM (as seen by this crate's decoder and by the peer's), ENC
     lines, index = [], []
     for (p, tags) in pkts:
         for fl in "CB":
-            index.append((p, fl, tags, len(lines)))
-            lines += ["WF 4 %s %s" % (fl, p), "NORM 4 %s" % p, "ENC 4 %s %d %s" % (fl, BIG, p)]
-    impl1, model1 = both(ctx, mexe, iexe, lines, "c04-pass1")
+            other = "B" if fl == "C" else "C"
+            index.append((p, fl, other, tags, len(lines)))
+            lines += ["WF %d %s %s" % (ver, fl, p), norm_op(ver, fl, p), norm_op(ver, other, p), "ENC %d %s %s %s" % (ver, fl, maxtok(ver, fl), p)]
+    impl1, model1 = both(ctx, mexe, iexe, lines, "c04-v%d-pass1" % ver)
     if impl1 is None:
-        return
-    diffs, fails = [], []          # (ops-with-expectations, message)
+        return False
     # ---- pass 2: decode what the real encoders produced
     lines2, index2 = [], []
     trailers = ["-", "c0", "00", "ffff30"]
     enc_ok = {}
-    for n, (p, fl, tags, at) in enumerate(index):
+    for n, (p, fl, other, tags, at) in enumerate(index):
         wf = model1[at] == "T"
-        normp = model1[at + 1]
-        ie, me = impl1[at + 2], model1[at + 2]
+        norm_same, norm_peer = model1[at + 1], model1[at + 2]
+        ie, me = impl1[at + 3], model1[at + 3]
         if ie != me:
-            diffs.append(([lines[at + 2]], "encoder differs from model: impl[%s] model[%s]" % (short(ie), short(me))))
+            diffs.append(([lines[at + 3]], "encoder differs from model: impl[%s] model[%s]" % (short(ie), short(me))))
         t = ie.split()
         if wf:
             okk = t[0] == "OK" and int(t[2]) == (0 if t[1] == "-" else len(t[1]) // 2) and (t[3] == "-" or t[3] == t[2])
             if not okk:
-                fails.append(([lines[at + 2] + " #= ENC-OK"], "wf packet: %s encoder answered %s (expected OK with ret = size = length)" % (fl, short(ie))))
+                fails.append(([lines[at + 3] + " #= ENC-OK"], "wf packet: %s encoder answered %s (expected OK with ret = size = length)" % (fl, short(ie))))
         if t[0] != "OK":
             continue
         bs = t[1]
@@ -343,59 +548,87 @@ def run_c04(ctx, mexe, iexe, p_ok):
         raw = bytes.fromhex(bs) if bs != "-" else b""
         tr = trailers[n % len(trailers)]
         full = (bs if bs != "-" else "") + (tr if tr != "-" else "")
-        other = "B" if fl == "C" else "C"
         h = header(raw)
         rem = h[2] if h[0] == "ok" else 0
         at2 = len(lines2)
-        # (for the multi-megabyte packets the 4th op repeats the 2nd: the model is slow on them)
-        lines2 += ["DEC 4 %s %d %s" % (fl, BIG, full or "-"), "DEC 4 %s %d %s" % (other, BIG, full or "-"), "WF 4 %s %s" % (other, normp),
-                   ("DEC 4 %s %d %s" % (fl, rem, bs)) if "huge" not in tags or ctx.thorough() else "WF 4 %s %s" % (other, normp)]
-        index2.append((p, fl, other, wf, normp, len(raw), at2, tags))
-    impl2, model2 = both(ctx, mexe, iexe, lines2, "c04-pass2")
+        # (for the multi-megabyte packets the 4th op repeats the 3rd: the model is slow on them)
+        wfpeer = "WF %d %s %s" % (ver, other, norm_peer)
+        lines2 += ["DEC %d %s %s %s" % (ver, fl, maxtok(ver, fl), full or "-"), "DEC %d %s %s %s" % (ver, other, maxtok(ver, other), full or "-"), wfpeer,
+                   ("DEC %d %s %d %s" % (ver, fl, rem, bs)) if "huge" not in tags or ctx.thorough() else wfpeer]
+        index2.append((p, fl, other, wf, norm_same, norm_peer, len(raw), at2, tags))
+    impl2, model2 = both(ctx, mexe, iexe, lines2, "c04-v%d-pass2" % ver)
     if impl2 is None:
-        return
-    nontrivial, wfcount, interop_checked = set(), 0, 0
-    hist = {}
-    for (p, fl, other, wf, normp, n, at, tags) in index2:
+        return False
+    hist = st["hist"]
+    for (p, fl, other, wf, norm_same, norm_peer, n, at, tags) in index2:
         for k in (0, 1, 3):
             if lines2[at + k].startswith("DEC") and impl2[at + k] != model2[at + k]:
                 diffs.append(([lines2[at + k]], "decoder differs from model: impl[%s] model[%s]" % (short(impl2[at + k]), short(model2[at + k]))))
         k = kind_of(p)
-        hist[k + ":" + fl + (":wf" if wf else ":not-wf")] = hist.get(k + ":" + fl + (":wf" if wf else ":not-wf"), 0) + 1
+        hk = "v%d:%s:%s%s" % (ver, k, fl, ":wf" if wf else ":not-wf")
+        hist[hk] = hist.get(hk, 0) + 1
         if not wf:
             continue
-        wfcount += 1
-        want = "PKT %s %d" % (normp, n)
-        enc_line = "ENC 4 %s %d %s" % (fl, BIG, p)
+        st["wf"] += 1
+        want = "PKT %s %d" % (norm_same, n)
+        enc_line = "ENC %d %s %s %s" % (ver, fl, maxtok(ver, fl), p)
         if impl2[at] != want:
-            fails.append(([enc_line, lines2[at] + " #= " + want], "round trip (%s): decode(encode p) = %s, expected %s" % (fl, short(impl2[at]), short(want))))
+            fails.append(([enc_line, lines2[at] + " #= " + want], "round trip (v%d %s): decode(encode p) = %s, expected %s" % (ver, fl, short(impl2[at]), short(want))))
         if lines2[at + 3].startswith("DEC") and impl2[at + 3] != want:
-            fails.append(([enc_line, lines2[at + 3] + " #= " + want], "round trip with max = remaining length (%s): %s, expected %s" % (fl, short(impl2[at + 3]), short(want))))
+            fails.append(([enc_line, lines2[at + 3] + " #= " + want], "round trip with max = remaining length (v%d %s): %s, expected %s" % (ver, fl, short(impl2[at + 3]), short(want))))
         peer_wf = model2[at + 2] == "T"
         sends = CLIENT_SENDS if fl == "C" else BROKER_SENDS
         if peer_wf:
-            interop_checked += 1
-            if impl2[at + 1] != want:
-                fails.append(([enc_line, lines2[at + 1] + " #= " + want], "interop %s->%s%s: peer decoded %s, expected %s" % (
-                    fl, other, "" if k in sends else " (type not sent in this direction)", short(impl2[at + 1]), short(want))))
-        if tags & {"optional", "len-boundary", "str-boundary", "multi", "strings", "flags", "codes", "broker-only-field"} or (
+            st["interop"] += 1
+            wantp = "PKT %s %d" % (norm_peer, n)
+            if impl2[at + 1] != wantp:
+                fails.append(([enc_line, lines2[at + 1] + " #= " + wantp], "interop v%d %s->%s%s: peer decoded %s, expected %s" % (
+                    ver, fl, other, "" if k in sends else " (type not sent in this direction)", short(impl2[at + 1]), short(wantp))))
+        if tags & {"optional", "len-boundary", "str-boundary", "multi", "strings", "flags", "codes", "broker-only-field", "props"} or (
                 "random" in tags and k in ("CONNECT", "PUBLISH", "SUBSCRIBE", "SUBACK", "UNSUBSCRIBE") and ("login=none" not in p or "will=none" not in p or k != "CONNECT")):
-            nontrivial.add((p, fl))
-    ctx.cov["evaluations"] = len(lines) + len(lines2)
-    ctx.cov["traces_validated_against_impl"] = len(lines) // 3 + 3 * len(index2)
-    ctx.cov["distinct_nontrivial"] = len(nontrivial)
-    ctx.cov["packets"] = len(pkts)
-    ctx.cov["wf_packet_flavour_pairs"] = wfcount
-    ctx.cov["interop_pairs_checked"] = interop_checked
-    ctx.cov["kind_histogram"] = hist
-    ctx.cov["correspondence_only"] = []
-    samp = []
+            st["nontrivial"].add((ver, p, fl))
+    st["evaluations"] += len(lines) + len(lines2)
+    st["validated"] += len(lines) // 4 + 3 * len(index2)
+    st["packets"] += len(pkts)
     for i in (0, 40, 200, 420, len(index2) - 1):
-        if i < len(index2):
-            (p, fl, other, wf, normp, n, at, tags) = index2[i]
-            samp.append("%s %s wf=%s -> enc %s ; same-crate %s ; peer %s" % (fl, short(p, 100), wf, short(enc_ok.get((p, fl), "?"), 60), short(impl2[at], 100), short(impl2[at + 1], 100)))
-    ctx.cov["samples"] = samp
-    report(ctx, "C04", fails, diffs, p_ok, len(lines) + len(lines2))
+        if 0 <= i < len(index2) and len(st["samples"]) < 10:
+            (p, fl, other, wf, norm_same, norm_peer, n, at, tags) = index2[i]
+            st["samples"].append("v%d %s %s wf=%s -> enc %s ; same-crate %s ; peer %s" % (
+                ver, fl, short(p, 100), wf, short(enc_ok.get((p, fl), "?"), 60), short(impl2[at], 100), short(impl2[at + 1], 100)))
+    return True
+
+
+def run_c04(ctx, mexe, iexe, p_ok):
+    rng = lib.Rng(ctx.seed)
+    ctx.cov["rule"] = (
+        "structured generators of canonical packets. MQTT 3.1.1: all 14 types; PUBLISH dup x qos x retain x ids {0,1,2,255,256,65535}; strings "
+        "(empty, ASCII, multi-byte, invalid UTF-8, lengths 127/128/65535/65536); remaining lengths 126..129, 16382..16385, 2097151/2097152 "
+        "(PUBLISH, CONNECT, SUBSCRIBE, SUBACK, UNSUBSCRIBE); CONNECT proto x clean x 5 wills x 6 logins; every return/reason code; "
+        "1-3 and ~3000 filters/codes; random packets. MQTT 5: all 14 types both crates implement; for every property table (CONNECT, will, CONNACK, "
+        "PUBLISH, acks, SUBSCRIBE, UNSUBSCRIBE, DISCONNECT): properties none / empty / each property alone with every pool value / all / every subset "
+        "(tables <= 9 ids, sampled for CONNACK) / repeated user properties and subscription identifiers / out-of-order and duplicated single-valued ids; "
+        "every reason code x {no properties, empty, some}; short and long forms of acks / DISCONNECT; flags, ids, filter options, length boundaries of the "
+        "remaining length and of the property length; corpus/codec. Each packet is encoded by BOTH real encoders (Packet::write/size, V4/V5::write) and by "
+        "the extracted Coq model (byte equality), every encoding (+ trailing bytes) is decoded by BOTH real decoders and the model. "
+        "Monitor on the real code, for packets that satisfy the Coq predicate wf_v4 / wf5: encoder succeeds, ret = size() = bytes written, same-crate decode "
+        "returns norm(p) consuming exactly the frame, also with max = remaining length, and the peer crate decodes the same bytes to its norm(p) when "
+        "wf peer (norm p). distinct_nontrivial = distinct wf (packet, flavour) pairs having an optional part / property present, a multi-byte string, several "
+        "filters/codes, or a remaining length within 1 of a len_len boundary.")
+    st = {"fails": [], "diffs": [], "hist": {}, "wf": 0, "interop": 0, "nontrivial": set(), "evaluations": 0, "validated": 0, "packets": 0, "samples": []}
+    if not c04_core(ctx, mexe, iexe, 4, wf_packets(ctx, rng), st):
+        return
+    if not c04_core(ctx, mexe, iexe, 5, wf_packets5(ctx, lib.Rng(ctx.seed ^ 0x55)), st):
+        return
+    ctx.cov["evaluations"] = st["evaluations"]
+    ctx.cov["traces_validated_against_impl"] = st["validated"]
+    ctx.cov["distinct_nontrivial"] = len(st["nontrivial"])
+    ctx.cov["distinct_nontrivial_v5"] = len([1 for x in st["nontrivial"] if x[0] == 5])
+    ctx.cov["packets"] = st["packets"]
+    ctx.cov["wf_packet_flavour_pairs"] = st["wf"]
+    ctx.cov["interop_pairs_checked"] = st["interop"]
+    ctx.cov["kind_histogram"] = st["hist"]
+    ctx.cov["samples"] = st["samples"]
+    report(ctx, "C04", st["fails"], st["diffs"], p_ok, st["evaluations"])
 
 
 def report(ctx, prop, fails, diffs, p_ok, nops):
@@ -424,7 +657,7 @@ MAXES = [0, 1, 127, 128, 10240]
 def dec_monitor(op, ans):
     """Property C05 on one DEC answer of the implementation; returns None or a message."""
     t = op.split()
-    mx = int(t[3])
+    mx = (1 << 62) if t[3] == "none" else int(t[3])
     bs = bytes.fromhex(t[4]) if t[4] != "-" else b""
     h = header(bs)
     a = ans.split()
@@ -457,20 +690,24 @@ def dec_monitor(op, ans):
     return None
 
 
-def small_valid_frames(ctx, mexe, rng):
+def small_valid_frames(ctx, mexe, rng, ver=4):
     """encodings (by the model) of the small wf packets: seeds for truncation / mutation / streams"""
-    seeds = [p for (p, tags) in wf_packets(ctx, lib.Rng(ctx.seed ^ 0x5A5A)) if not (tags & {"huge", "str-boundary", "len-boundary"})]
-    lines = ["ENC 4 B %d %s" % (BIG, p) for p in seeds] + ["ENC 4 C %d %s" % (BIG, p) for p in seeds]
+    gen = wf_packets if ver == 4 else wf_packets5
+    seeds = [p for (p, tags) in gen(ctx, lib.Rng(ctx.seed ^ 0x5A5A)) if not (tags & {"huge", "str-boundary", "len-boundary"})]
+    lines = ["ENC %d B %d %s" % (ver, BIG, p) for p in seeds] + ["ENC %d C %d %s" % (ver, BIG, p) for p in seeds]
     rc, out, err = run_ops(mexe, lines, "c05-seeds")
     frames = set()
     for o in out:
         t = o.split()
-        if t and t[0] == "OK" and t[1] != "-" and len(t[1]) <= 400:
+        if t and t[0] == "OK" and t[1] != "-" and len(t[1]) <= (400 if ver == 4 else 160):
             frames.add(t[1])
-    return sorted(frames)
+    frames = sorted(frames)
+    if ver == 5 and not ctx.thorough() and len(frames) > 900:      # keep the quick tier quick: a deterministic sample
+        frames = [f for i, f in enumerate(frames) if i % (len(frames) // 900 + 1) == 0]
+    return frames
 
 
-def gen_dec_ops(ctx, frames, rng):
+def gen_dec_ops(ctx, frames, rng, ver=4):
     ops = []
     LB = ["00", "01", "7f", "80", "ff"]
     BODY = ["", "00", "01", "02", "04", "7f", "80", "ff"]
@@ -509,7 +746,7 @@ def gen_dec_ops(ctx, frames, rng):
                     r2 = bytearray(raw); r2[k] = m
                     ops.append(r2.hex())
         ops.append(f + "c000")
-    for l in corpus_lines("DEC"):
+    for l in corpus_lines("DEC", ver):
         ops.append(l.split()[4])
     mut_n = len(ops) - grammar_n
     # random strings
@@ -523,8 +760,8 @@ def gen_dec_ops(ctx, frames, rng):
     lines = []
     for j, o in enumerate(ops):
         mx = MAXES[j % len(MAXES)] if j < grammar_n else rng.choice([BIG, BIG, 10240, 128, 127, 1, 0])
-        lines.append("DEC 4 C %d %s" % (mx, o))
-        lines.append("DEC 4 B %d %s" % (mx, o))
+        lines.append("DEC %d C %s %s" % (ver, "none" if (ver == 5 and mx == BIG and j % 2) else mx, o))
+        lines.append("DEC %d B %d %s" % (ver, mx, o))
     return lines, grammar_n, mut_n
 
 
@@ -548,11 +785,13 @@ def splits(rawhex, rng, thorough):
     return [[c.hex() for c in s] for s in out if s]
 
 
-def gen_stream_ops(ctx, frames, rng):
+def gen_stream_ops(ctx, frames, rng, ver=4):
     """concatenations of 1-6 frames (valid, sometimes one malformed / truncated at the end) x chunkings"""
     groups = []
     small = [f for f in frames if len(f) <= 60]
     bad = ["f000", "3003000061", "100400044d51", "82020001", "ffffffffff00", "b00100", "9003000103", "e00100", "00", "30ffffffff7f"]
+    if ver == 5:      # truncated variable byte integers inside a complete frame, reason-only DISCONNECT, bad property ids
+        bad += ["3003000080", "e00180", "e0028000", "400400018080", "3005000001ff00", "20030000ff", "820500010b8080", "30060000030b8061"]
     ng = 8000 if ctx.thorough() else 1000
     for g in range(ng):
         k = 1 + rng.below(6)
@@ -569,14 +808,14 @@ def gen_stream_ops(ctx, frames, rng):
         fl = "CB"[g % 2]
         mx = rng.choice([BIG, BIG, 10240, 128, 40])
         groups.append((fl, mx, raw))
-    for l in corpus_lines("STREAM"):
+    for l in corpus_lines("STREAM", ver):
         t = l.split()
-        groups.append((t[2], int(t[3]), "".join(c for c in t[4:] if c != "-")))
+        groups.append((t[2], BIG if t[3] == "none" else int(t[3]), "".join(c for c in t[4:] if c != "-")))
     lines, gidx = [], []
     for (fl, mx, raw) in groups:
         start = len(lines)
         for sp in splits(raw, rng, ctx.thorough()):
-            lines.append("STREAM 4 %s %d %s" % (fl, mx, " ".join(sp)))
+            lines.append("STREAM %d %s %s %s" % (ver, fl, "none" if (ver == 5 and fl == "C" and mx == BIG) else mx, " ".join(sp)))
         gidx.append((start, len(lines)))
     return lines, gidx
 
@@ -598,6 +837,8 @@ def run_c05(ctx, mexe, iexe, p_ok):
         "inputs that are not plain valid frames (malformed / truncated / over-max / trailing bytes) + distinct chunkings whose first cut falls inside a frame.")
     frames = small_valid_frames(ctx, mexe, rng)
     dlines, grammar_n, mut_n = gen_dec_ops(ctx, frames, rng)
+    frames5 = small_valid_frames(ctx, mexe, rng, 5)
+    dlines5, grammar_n5, mut_n5 = gen_dec_ops(ctx, frames5, rng, 5)
     # UTF-8 validator vs String::from_utf8 (used by the model for every String field)
     ulines = []
     for a in list(range(0x00, 0x100, 1)):
@@ -610,6 +851,9 @@ def run_c05(ctx, mexe, iexe, p_ok):
                     if a >= 0xf0:
                         ulines.append("UTF8 %02x%02x%02x80" % (a, b, c)); ulines.append("UTF8 %02x%02x%02xc0" % (a, b, c))
     slines, gidx = gen_stream_ops(ctx, frames, rng)
+    slines5, gidx5 = gen_stream_ops(ctx, frames5, rng, 5)
+    gidx += [(a_ + len(slines), b_ + len(slines)) for (a_, b_) in gidx5]
+    slines += slines5
     fails, diffs = [], []
     hist, nontriv = {}, set()
     counters = {"ops": 0, "nontriv_extra": 0}
@@ -640,7 +884,9 @@ def run_c05(ctx, mexe, iexe, p_ok):
                 samples.append("%s -> impl %s / model %s" % (short(lines[i]), short(impl[i]), short(model[i])))
         return True
 
-    if not process(dlines + ulines, "c05-dec"):
+    if not process(dlines + ulines, "c05-dec-v4"):
+        return
+    if not process(dlines5, "c05-dec-v5"):
         return
     all3 = 0
     if ctx.thorough():
@@ -656,6 +902,8 @@ def run_c05(ctx, mexe, iexe, p_ok):
                     mx = MAXES[j % len(MAXES)]
                     batch.append("DEC 4 C %d %s" % (mx, pre + mid + tl))
                     batch.append("DEC 4 B %d %s" % (mx, pre + mid + tl))
+                    batch.append("DEC 5 C %d %s" % (mx, pre + mid + tl))
+                    batch.append("DEC 5 B %d %s" % (mx, pre + mid + tl))
             all3 += len(batch)
             if not process(batch, "c05-all3-%02x" % a, exhaustive_distinct=True):
                 return
@@ -688,9 +936,11 @@ def run_c05(ctx, mexe, iexe, p_ok):
     ctx.cov["traces_validated_against_impl"] = total
     ctx.cov["distinct_nontrivial"] = len(nontriv) + counters["nontriv_extra"]
     ctx.cov["exhaustive"] = True
-    ctx.cov["exhaustive_part"] = 2 * grammar_n + all3
+    ctx.cov["exhaustive_part"] = 2 * grammar_n + 2 * grammar_n5 + all3
     ctx.cov["all_strings_upto_3_bytes_ops"] = all3
-    ctx.cov["mutation_ops"] = 2 * mut_n
+    ctx.cov["mutation_ops"] = 2 * mut_n + 2 * mut_n5
+    ctx.cov["v5_dec_ops"] = len(dlines5)
+    ctx.cov["v5_stream_chunkings"] = len(slines5)
     ctx.cov["utf8_ops"] = len(ulines)
     ctx.cov["streams"] = len(gidx)
     ctx.cov["stream_chunkings"] = len(slines)
